@@ -1,45 +1,22 @@
 #!/usr/bin/env python3
-"""Regenerates /verif/MANIFEST.json from the tables below (kept next to the
-checks so the manifest never drifts from what is built)."""
+"""Regenerates /verif/MANIFEST.json from tools/claims.json (claimed checks and
+not-applicable reasons) so the manifest never drifts from what is built."""
 import json, os
 
 HERE = os.path.dirname(os.path.dirname(os.path.abspath(__file__)))
 
 TECH = "contract-based deductive verification: go/ssa symbolic execution (govc) -> SMT (z3 5.1/4.8, cvc5), obligations per function under contract"
 
-# id -> (level text, level note, design ref)
-CLAIMED = {
-    "C20": ("Proof for all datagram lengths and contents: every index/slice/nil/type-assertion panic condition of ReadPacket, Header.Unpack, NewPacketWithHeader and all 28 (*T).Unpack is an obligation discharged by SMT over bit-vector semantics; ReadPacket uses its callees' contracts only.",
-            "Trusted: io.Reader.Read contract (0<=n<=len(p) on success), fmt.Errorf, encoding/binary, go/ssa lowering and govc's encoding, SMT solvers. String() methods reached only through logging are not covered (A-LOG).",
-            "6.A C20"),
-}
-
-CLAIMED["C22"] = ("Proof for all accepted datagrams: Header.Unpack returns the header length and type found on the wire, every (*T).Unpack sets each field to the bytes at its MQTT-SN 1.2 position (28 postconditions written from the specification), and ReadPacket hands exactly the bytes after the actual header to the decoder of the type found at its position (site assertions).",
-            "Trusted: io.Reader.Read contract, encoding/binary.BigEndian, go/ssa lowering, govc encoding, SMT solvers. Re-encoding equality follows from these field postconditions together with the C21 Pack contracts; it is not a separate obligation.",
-            "6.A C22")
-CLAIMED["C21"] = ("Proof for all legal field values: every Pack is verified against a byte-level encoding written from the specification (header form, length field, field offsets, quantified payload clause), SetVarPartLength against the 255 boundary, and 28 ghost round-trip lemma functions (construct, Pack, decode) are verified from those contracts; the short-topic encoding is proved a bijection for all 65536 IDs and all 2-byte names.",
-            "The decode step of the lemmas mirrors ReadPacket's body (Header.Unpack, NewPacketWithHeader, Unpack of the bytes after the header); ReadPacket's own glue is C22's. Small helpers (computeLength, encodeFlags, PackToBuffer, EncodeUint16, constructors) are inlined, not contracted. bytes.Buffer is a trusted append-only model.",
-            "6.A C21")
-
-NA = {
-    "C10": "real-time liveness (session ends within 5 s + poll) across timers, goroutines and context cancellation: no per-call contract expresses elapsed time",
-    "C12": "timed histories (a broker packet in every 1.5x keep-alive window): needs a clock and an environment model, not a per-call contract",
-    "C26": "two-party whole-history refinement of client against gateway: contracts of one side could only be assumed by the other (proving a model of the peer)",
-    "C28": "termination/liveness of blocking API calls and goroutine exit: not expressible as pre/postconditions of one call",
-    "C33": "ticker/channel timing and interleavings of the keep-alive loop: schedules and elapsed time are abstracted by the technique",
-    "C34": "real-time liveness against an assumed broker: needs timed environment model",
-}
-
-PENDING = {}  # id -> reason (filled below for every property neither claimed nor N/A)
-
 
 def main():
+    claims = json.load(open(os.path.join(HERE, "tools", "claims.json")))
+    CLAIMED, NA, PENDING = claims["claimed"], claims["not_applicable"], claims.get("pending", {})
     props = [json.loads(l) for l in open(os.path.join(HERE, "properties.jsonl"))]
     ids = [p["id"] for p in props]
     checks = []
     for i in ids:
         if i in CLAIMED:
-            text, note, ref = CLAIMED[i]
+            c = CLAIMED[i]
             checks.append({
                 "property_id": i,
                 "quick_cmd": "./check %s" % i,
@@ -47,8 +24,8 @@ def main():
                 "evidence_file": "/verif/evidence/%s.json" % i,
                 "replay_cmd_template": "./check %s --replay {path}" % i,
                 "engine": "govc",
-                "level_claimed": {"category": "proof", "text": text, "design_ref": "DESIGN.md " + ref},
-                "level_note": note,
+                "level_claimed": {"category": "proof", "text": c["text"], "design_ref": "DESIGN.md " + c["ref"]},
+                "level_note": c["note"],
                 "technique": TECH,
             })
     na = []
